@@ -313,6 +313,8 @@ def merge_summaries(sums):
     out = {}
     for s in sums:
         for k, v in s.items():
+            if v is None:
+                continue
             if isinstance(v, bool):
                 out[k] = out.get(k, False) or v
             elif isinstance(v, (int, float)):
